@@ -16,7 +16,7 @@ EVIDENCE = os.path.join(VERIF, "evidence")
 REPLAYS = os.path.join(VERIF, "replays")
 KNOWN_FINDINGS = os.path.join(VERIF, "known_findings.json")
 GUARD = "s2e_systems_dust_dds_verif"
-N_TARGET_DIRS = 8
+N_TARGET_DIRS = int(os.environ.get("VERIF_SLOTS", "6"))  # machine-wide cap on concurrent cargo-kani runs (shared .build)
 
 EXIT_OK = 0
 EXIT_VIOLATION = 1
